@@ -39,6 +39,12 @@ func All() map[string]orch.PropertySpec {
 		"C04": {ID: "C04", Level: "model_checking", Assumptions: trusted,
 			Rule: "cases are the attacker documents of spec/Forgery.tla (signature-checking and skip mode), the signer/store/clock matrix of spec/Trust.tla for all four inbound kinds and the signing states of spec/Logout.tla; each replayed against the real code, flags of the Response, of every assertion, of the assertion-info summary and of logout messages projected; non-trivial = every case",
 			Parts: []orch.Part{{Family: fam.Forgery{}, Monitors: []string{"C04"}}, {Family: fam.Trust{}, Monitors: []string{"C04"}}, {Family: fam.Logout{}, Monitors: []string{"C04"}}}},
+		"C07": {ID: "C07", Level: "model_checking", Assumptions: trusted,
+			Rule: "cases are (a) every attacker document of spec/Forgery.tla with encrypted kids (forged / unsigned / re-signed plaintext encrypted to the SP certificate, in direct, wrapped and nested positions) and (b) the binding sub-space of spec/Xmlenc.tla: recipient certificate absent/match/mismatch x certificate-validation option x SP clock against the SP certificate window (edges included) x certificate form valid/empty/garbage x signed or unsigned Response x inline/detached key; all replayed; non-trivial = every case",
+			Parts: []orch.Part{{Family: fam.Forgery{}, Monitors: []string{"C07"}}, {Family: fam.Xmlenc{}, Monitors: []string{"C07", "C01"}}}},
+		"C11": {ID: "C11", Level: "model_checking", Assumptions: append([]string{"for a declared OAEP digest the sender uses the same hash for MGF1 (the only reading under which the exported digest identifiers are usable with this library)"}, trusted...),
+			Rule: "cases are the round-trip sub-spaces of spec/Xmlenc.tla: every advertised data algorithm x {OAEP-MGF1P, OAEP 1.1} x {no digest, each exported digest identifier} and PKCS#1 v1.5 x inline/detached EncryptedKey x recipient certificate absent/matching x SP key supplied by key-store field (TLS store or plain store), by the setter, or both (same or different keys), each compared with its plaintext twin; plus DecryptBytes on random plaintexts of every length residue modulo 16, with and without trailing zero bytes; all replayed; non-trivial = every case",
+			Parts: []orch.Part{{Family: fam.Xmlenc{}, Monitors: []string{"C11"}}}},
 	}
 }
 
